@@ -70,6 +70,8 @@ structure InstW where
   flag : Bool := false
   flagTok : Nat := 0            -- token shown at the last flag=1 edge
   gauge : Bool := false         -- last value given to the is-leader gauge
+  gaugeLast : Option Bool := none  -- the same, none while the gauge was never written
+  transCount : Nat := 0         -- transitions recorded (Metrics.IncTransitions calls)
   termOpen : Bool := false      -- a promotion of the current term has been seen and no demotion since
   promotes : Nat := 0
   demotes : Nat := 0
@@ -98,6 +100,9 @@ structure InstW where
                                     -- (non-leading) instance: a watch notification, a periodic check or Watch call that failed or found nothing
   lastMissAt : Option Nat := none   -- the latest of them that was a periodic check finding no record
   lastCreateAt : Option Nat := none -- its latest Create call
+  jitterSuspect : Option (Nat × String) := none  -- a Create that looks like a round without jitter; judged when the clock moves on
+  spawns : List Nat := []            -- moments (of the last few seconds) at which an acquisition round or a single takeover attempt of this instance began
+  spacingSuspect : Option (Nat × String) := none  -- two Creates of what can only be one round, closer than the smallest backoff; judged when the clock moves on
   createDebtAt : Option Nat := none  -- a Create call that nothing accounted for when it was logged (the notification that caused it is logged after it, at the same instant)
   createCredit : Int := 0        -- Create calls still covered by what could have started them: one per accepted Start, four per
                                 -- acquisition round (vacancy notification, periodic check that found nothing), one per takeover opportunity
